@@ -4,7 +4,7 @@
    for every expression tree of any size.  Declarations and statements are decided by the round-trip search. *)
 From Coq Require Import List NArith Bool Arith.
 From Verif Require Import Base.Res Gen.GenTokens Model.Lexer Model.ExprParser Proofs.ExprParserProofs Proofs.ExprInstance.
-From Verif Require Model.StParser Model.StInstance Model.StRender Proofs.StExprProofs Proofs.StStmtProofs Proofs.StInstanceProofs Proofs.StRenderProofs Model.DeclParser Proofs.DeclProofs Proofs.DeclRenderProofs Proofs.LibProofs Model.LibRender Proofs.LibRenderProofs Proofs.LexSpell Proofs.TextRoundTrip Model.Literals Model.TimeRender Proofs.TimeRenderProofs.
+From Verif Require Model.StParser Model.StInstance Model.StRender Proofs.StExprProofs Proofs.StStmtProofs Proofs.StInstanceProofs Proofs.StRenderProofs Model.DeclParser Proofs.DeclProofs Proofs.DeclRenderProofs Proofs.LibProofs Model.LibRender Proofs.LibRenderProofs Proofs.LexSpell Proofs.TextRoundTrip Model.Literals Model.TimeRender Proofs.TimeRenderProofs Model.DurRender Proofs.DurRenderProofs Proofs.LitProofs.
 Import ListNotations.
 Close Scope N_scope.
 Open Scope nat_scope.
@@ -167,3 +167,11 @@ Proof. vm_compute. repeat split; reflexivity. Qed.
 Theorem C10_date_round_trip : forall y m d : N, Literals.date_literal y m d = Some (y, m, d) ->
   TimeRender.date_read_back y m d = Some (y, m, d).
 Proof. exact TimeRenderProofs.date_round_trip. Qed.
+
+(* Durations: the renderer writes TIME#<n>ms with n the whole milliseconds (in decimal).  Whatever decimal spelling of n < 2^64
+   it writes, <n> ms is read back as exactly n milliseconds -- so a duration of whole milliseconds survives; finer than a
+   millisecond the renderer drops what the library keeps (recorded finding render-fractional-time-values). *)
+Theorem C10_milliseconds_read_back : forall ds : list N, Forall (fun x => x < 10)%N ds -> ds <> [] -> (LitProofs.horner 10 ds < Literals.two64)%N ->
+  DurRender.read_milliseconds (LitProofs.digits_text ds) =
+  Some (LitProofs.horner 10 ds / 1000, (LitProofs.horner 10 ds mod 1000) * 1000000)%N.
+Proof. exact DurRenderProofs.milliseconds_read. Qed.
